@@ -418,6 +418,23 @@ func isFreshChannel(v ssa.Value) bool {
 		return isFreshChannel(x.X)
 	case *ssa.ChangeInterface:
 		return isFreshChannel(x.X)
+	case *ssa.Parameter:
+		// parameter of an unexported helper (conn.addOpened(id, ch)) that every caller hands a fresh channel
+		fn := x.Parent()
+		if fn == nil || fn.Parent() != nil || token.IsExported(fn.Name()) {
+			return false
+		}
+		sites, escapes := sitesOf(fn)
+		if escapes || len(sites) == 0 {
+			return false
+		}
+		pi := paramIndex(fn, x)
+		for _, s := range sites {
+			if _, isGo := s.(*ssa.Go); isGo || pi >= len(s.Common().Args) || !isFreshChannel(s.Common().Args[pi]) {
+				return false
+			}
+		}
+		return true
 	case *ssa.UnOp:
 		if x.Op == token.MUL {
 			if al, ok := x.X.(*ssa.Alloc); ok {
